@@ -16,6 +16,12 @@ def sig_of(path, direction):
 
 
 def run(ctx):
+    _run(ctx)
+    ctx.delegate("C09", ["C09.W5", "C09.ctor"], "C01.commit",
+                 "same number of shapes read back: every record written is committed by the next finalize or drop, whatever "
+                 "finalize calls came before (a new writer is dirty; every successful write leaves it dirty)", floor=3)
+
+def _run(ctx):
     F = ctx.facts("default")
     sp = util.spec()
     ctx.rule("C01.sym", "for each of the 13 types the writer's abstract layout equals the reader's layout on the M-present valuation "
@@ -190,7 +196,12 @@ def run(ctx):
                 good = False
                 why.append("end = %s" % absint.term_str(end))
             # an item is produced only while the cursor is inside the offsets array
-            inside = any((t[0] == 'bin' and t[1] == 'Lt' and t[2] == cur and t[3][0] == 'len' and (v != 0 if isinstance(v, int) else True)) or
+            def tr(v):
+                return (v != 0) if isinstance(v, int) else True
+            inside = any((t[0] == 'bin' and t[1] == 'Lt' and t[2] == cur and t[3][0] == 'len' and tr(v)) or
+                         (t[0] == 'bin' and t[1] == 'Ge' and t[2] == cur and t[3][0] == 'len' and not tr(v)) or
+                         (t[0] == 'bin' and t[1] == 'Gt' and t[3] == cur and t[2][0] == 'len' and tr(v)) or
+                         (t[0] == 'bin' and t[1] == 'Le' and t[3] == cur and t[2][0] == 'len' and not tr(v)) or
                          (t[0] == 'discr' and t[1][0] == 'get' and t[1][2] == cur and v == 1) for t, v in p.cons)
             if not inside:
                 good = False
@@ -343,7 +354,7 @@ def run(ctx):
         ctx.missing("C01.frame", "record reader")
     for imp in F.trait_impls("record::ReadableShape"):
         f = F.fns.get(imp["methods"][0]["key"])
-        ps, _ = util.run_fn(F, f, inline=lambda g, t: "read_shape_content" not in g["def"], summarise_pure=True)
+        ps, _ = util.run_fn(F, f, inline=lambda g, t: "read_shape_content" not in g["def"], summarise_pure=False)
         good = False
         for p in ps:
             calls = [e for e in p.eff if e[0] == 'call' and 'read_shape_content' in (e[2] or e[1])]
@@ -393,6 +404,21 @@ def run(ctx):
                         kadt = F.adts.get("record::multipatch::PatchType")
                         kind = {x["vi"]: x["name"] for x in kadt["variants"]}.get(v) if kadt else None
                 pu = [e for e in body['eff'] if e[0] == 'push']
+                if len(pu) == 1 and pu[0][2][0] == 'app' and len(pu[0][2][2]) == 2:
+                    # the kind -> variant table lives in a pure local helper (kind, points) -> Patch: evaluate it
+                    hv = pu[0][2]
+                    g = util.local_fn(F, hv[1])
+                    kadt = F.adts.get("record::multipatch::PatchType")
+                    knames = {x["vi"]: x["name"] for x in kadt["variants"]} if kadt else {}
+                    if g is not None:
+                        for hp in absint.Interp(F, summarise_pure=False).run(g):
+                            ds = [v for t, v in hp.cons if t[0] == 'discr' and isinstance(v, int) and absint.contains(t, ('param', 1))]
+                            if hp.status == 'return' and len(ds) == 1 and is_agg(hp.ret, "record::multipatch::Patch") and not hp.eff \
+                                    and hp.ret[4] and hp.ret[4][0][1] == ('param', 2):
+                                kind_to_patch[knames.get(ds[0])] = hp.ret[2]
+                    if 'elem' not in absint.term_str(hv[2][1]) or 'elem' not in absint.term_str(hv[2][0]):
+                        zip_ok = False
+                    continue
                 if kind and len(pu) == 1 and is_agg(pu[0][2], "record::multipatch::Patch"):
                     kind_to_patch[kind] = pu[0][2][2]
                     payload = pu[0][2][4][0][1]
